@@ -27,6 +27,14 @@ def R(proto, eng, **kw):
     return d
 
 
+def RS(eng, **kw):
+    """the raw engine driven through scenarios TLC generates from spec/mc/MC_RawScn.tla (direction 1)"""
+    d = C('rawscn_' + eng, 'TestRaw', 'TraceRaw_' + eng, file='raw_' + eng, env={'VERIF_RAW_PROTOS': eng}, n={'quick': 120, 'thorough': 3000},
+          scn=[('MC_RawScn', {'quick': ['RawScn_%s_a.cfg' % eng], 'thorough': ['RawScn_%s_a.cfg' % eng, 'RawScn_%s_b.cfg' % eng, 'RawScn_%s_z.cfg' % eng]})])
+    d.update(kw)
+    return d
+
+
 def push_sq0(job, ev, ctx):
     """C02 'Send completes ... for every accepted queue-length setting' on PUSH with WriteQLen 0.
     (1) TLC on the specification (which models the scheduler as the code has it) violates NoStuckSend:
@@ -315,6 +323,7 @@ CHECKS = {
     'C18': {
         'level': 'model_checking',
         'jobs': [
+            RS('xreq'), RS('xpull'), RS('xpair1'),
             T('MC_Req', 'Req_q18.cfg'), T('MC_RawSock', 'Raw_xpush_fnp.cfg'), T('MC_RepLike', 'Rep_quick.cfg'),
             T('MC_Req', 'Req_2ctx_deadl.cfg', tiers=('thorough',)), T('MC_Req', 'Req_2ctx_be.cfg', tiers=('thorough',)),
             T('MC_Req', 'Req_2ctx_fnp.cfg', tiers=('thorough',)),
@@ -364,6 +373,7 @@ CHECKS = {
     'C02': {
         'level': 'model_checking',
         'jobs': [
+            RS('xpair'), RS('xpush'),
             C('link', 'TestLinkReal', 'TraceLink', env={'VERIF_LINK_PATS': 'pair,pushpull,xpair,xpushxpull'}),
             T('MC_RawSock', 'Raw_xpair.cfg'), T('MC_RawSock', 'Raw_xpair_sq0.cfg'), T('MC_RawSock', 'Raw_xpush.cfg'),
             T('MC_RawSock', 'Raw_xpush_fnp.cfg'), T('MC_RawSock', 'Raw_xpull.cfg'),
@@ -379,6 +389,7 @@ CHECKS = {
     'C08': {
         'level': 'model_checking',
         'jobs': [
+            RS('xbus'), RS('xstar'),
             T('MC_RawSock', 'Raw_xbus.cfg'), T('MC_RawSock', 'Raw_xstar.cfg'),
             R('xbus', 'xbus'), R('bus', 'xbus'), R('xstar', 'xstar'), R('star', 'xstar'),
             T('MC_Mesh', 'Mesh_star.cfg', workers=8), T('MC_Mesh', 'Mesh_bus.cfg', workers=4),
@@ -416,6 +427,7 @@ CHECKS = {
     'C05': {
         'level': 'model_checking',
         'jobs': [
+            RS('xrep'), RS('xrespondent'),
             T('MC_RepLike', 'Rep_quick.cfg'),
             T('MC_RepLike', 'Respondent_quick.cfg'),
             T('MC_RepLike', 'Rep_plain.cfg', tiers=('thorough',)),
@@ -436,6 +448,7 @@ CHECKS = {
     'C06': {
         'level': 'model_checking',
         'jobs': [
+            RS('xpub'), RS('xsub'),
             T('MC_Sub', 'Sub_quick.cfg'),
             T('MC_Sub', 'Sub_full.cfg', tiers=('thorough',)),
             C('sub', 'TestSub', 'TraceSub', n={'quick': 120, 'thorough': 1500}),
@@ -449,6 +462,7 @@ CHECKS = {
     'C07': {
         'level': 'model_checking',
         'jobs': [
+            RS('xsurveyor'),
             T('MC_Surveyor', 'Surveyor_quick.cfg'),
             T('MC_Surveyor', 'Surveyor_full.cfg', tiers=('thorough',), timeout=2400),
             C('surveyor', 'TestSurveyor', 'TraceSurveyor', n={'quick': 120, 'thorough': 1500}),
